@@ -50,7 +50,7 @@ def mk(prefix, L, op, extra, sfx, checks='func', leak=False, timeout=600, safety
     d['VF_OP'] = OPS[op]
     d.update(extra or {})
     M = L['M']
-    return Case('%s.ha.%s.%s%s' % (prefix, op, L['id'], sfx), 'hasharr.c', d, unwind=max(M * E + 6, 30), unwindset={'find_avail.0': M + 1, 'remove_data.0': M + 1, 'put_data.0': M + 2, 'get_idx.0': M + 1, 'qhasharr_remove_by_idx.0': M + 1, 'get_data.0': M + 1, 'get_data.1': M + 1, 'qhasharr_getnext.0': M + 2}, checks=checks, leak=leak, timeout=timeout, object_bits=10,
+    return Case('%s.ha.%s.%s%s' % (prefix, op, L['id'], sfx), 'hasharr.c', d, unwind=max(M * E + 6, 30), unwindset={'find_avail.0': M + 1, 'remove_data.0': M + 1, 'put_data.0': M + 2, 'get_idx.0': M + 1, 'qhasharr_remove_by_idx.0': M + 1, 'get_data.0': M + 1, 'get_data.1': M + 1, 'qhasharr_getnext.0': M + 2, 'qhasharr_put_by_obj': 2}, checks=checks, leak=leak, timeout=timeout, object_bits=10,
                 funcs=FUNCS[op], safety_owner=safety_owner,
                 desc='static hash table %s on layout %s (M=%d, %d keys, %d used)%s: key bytes/lengths, value bytes, block fills, raw hash symbolic' % (op, L['id'], M, L['nkeys'], L['used'], sfx))
 
@@ -66,7 +66,7 @@ def vsizes(M, tier):
 
 def step_cases(tier, prefix='c06', ops=('PUT', 'GET', 'REMOVE', 'REMOVE_IDX', 'WALK', 'CLEAR', 'SIZE'), Ms=None, filt=None, **kw):
     q = tier == 'quick'
-    Ms = Ms or ([2, 3] if q else [2, 3, 4])
+    Ms = Ms or ([2] if q else [2, 3])
     out = []
     for M in Ms:
         for L in layouts(M):
@@ -125,7 +125,7 @@ def cases(tier, mode='func'):
     if mode == 'func':
         return step_cases(tier)
     if mode == 'c07':
-        return step_cases(tier, prefix='c07', checks='safety', ops=('PUT', 'REMOVE', 'REMOVE_IDX', 'GET', 'CLEAR'), Ms=[2, 3] if q else [2, 3]) + ctor_cases(tier)
+        return step_cases(tier, prefix='c07', checks='safety', ops=('PUT', 'REMOVE', 'REMOVE_IDX', 'GET', 'CLEAR'), Ms=[2] if q else [2, 3]) + ctor_cases(tier)
     if mode == 'safety':
         return step_cases(tier, prefix='c11', checks='safety', leak=True, Ms=[2] if q else [2, 3], safety_owner='C11')
     if mode == 'copy':
@@ -137,7 +137,7 @@ def cases(tier, mode='func'):
 
 def info(tier):
     q = tier == 'quick'
-    Ms = [2, 3] if q else [2, 3, 4]
+    Ms = [2] if q else [2, 3]
     return {'container': 'static hash table (qhasharr.c)',
             'bounds': 'capacity M in %s with ALL %s well-formed slot-graph layouts; knobs scaled by the guarded hook to NAMESIZE=2, DATASIZE=3 (extension block %d bytes): keys 1..3 bytes (both sides of the in-slot limit), '
                       'value sizes %s (both sides of every slot boundary); operation-key home slot and key class are per-query constants' % (Ms, [len(layouts(m)) for m in Ms], E, vsizes(3, tier)),
